@@ -201,12 +201,17 @@ def check(tier, seed, replay=None):
                 add(ri, {"argv": ["@FILE0"] + argv, "stdin": "", "files": [rc["stdin"]]})
         elif k == "files":
             argv = RL.argv_for(rc["policy"], rc["mode"], rc["onlyObj"])
-            c = {"argv": ["@FILE%d" % j for j in range(len(rc["parts"]))] + argv, "stdin": "", "files": rc["parts"]}
+            # every third time a file is named twice: it is read twice, where it stands (a repeated operand repeats its rows)
+            order = list(range(len(rc["parts"])))
+            if ri % 3 == 0:
+                order.insert(random.Random(ri).randrange(len(order) + 1), random.Random(ri + 1).randrange(len(rc["parts"])))
+            rc["order"] = order
+            c = {"argv": ["@FILE%d" % j for j in order] + argv, "stdin": "", "files": rc["parts"]}
             if rc.get("names"):
                 c["names"] = rc["names"]          # the files are read in the order they are given, whatever they are called
             add(ri, c)
-            for p in rc["parts"]:
-                add(ri, {"argv": ["@FILE0"] + argv, "stdin": "", "files": [p]})
+            for j in order:
+                add(ri, {"argv": ["@FILE0"] + argv, "stdin": "", "files": [rc["parts"][j]]})
         elif k == "dir":
             # a directory argument: every regular file below it (also through symbolic links) is read once; the order is the file system's
             argv = RL.argv_for(rc["policy"], "plain", False)
@@ -246,7 +251,7 @@ def check(tier, seed, replay=None):
                     rec["out"] = rec["base"] = []
                     rec["exact"] = False
         elif k == "files":
-            rec = RL.base_record("files", rc["policy"], rc["mode"], rc["onlyObj"], [bytes.fromhex(p) for p in rc["parts"]], b"")
+            rec = RL.base_record("files", rc["policy"], rc["mode"], rc["onlyObj"], [bytes.fromhex(rc["parts"][j]) for j in rc["order"]], b"")
             rec.update({"res": o[0]["res"], "out": list(bytes.fromhex(o[0]["out"])), "parts": [list(bytes.fromhex(x["out"])) for x in o[1:]]})
         elif k == "dir":
             rec = RL.base_record("dir", "ignore", "plain", False, None, b"")
